@@ -902,20 +902,27 @@ func dkgMessage(e *env, proto, phase string, raw json.RawMessage) string {
 		st, _ = crypto.NewJointFeldman(n, t, me, dkgProc{})
 	}
 	sd := make([]byte, 32)
-	if phase != "new" {
+	if phase == "rerun" {
+		// a complete successful run first: a real dealer (participant 0, or everybody in Joint-Feldman) deals to this instance
+		successfulRun(proto, me, st)
+		st.Start(sd)
+	} else if phase != "new" {
 		st.Start(sd)
 	}
-	if phase == "timeout1" || phase == "timeout2" || phase == "ended" {
+	if phase == "timeout1" || phase == "timeout2" || phase == "ended" || phase == "restarted" {
 		st.NextTimeout()
 	}
-	if phase == "timeout2" || phase == "ended" {
+	if phase == "timeout2" || phase == "ended" || phase == "restarted" {
 		st.NextTimeout()
 	}
-	if phase == "ended" {
+	if phase == "ended" || phase == "restarted" {
 		st.End()
 	}
+	if phase == "restarted" {
+		st.Start(sd)
+	}
 	vec := 96 * (t + 1)
-	ln := map[string]int{"none": -1, "1": 0, "31": 30, "32": 31, "33": 32, "vec-1": vec - 1, "vec": vec, "vec+1": vec + 1, "huge": 10000}[size]
+	ln := map[string]int{"none": -1, "1": 0, "2": 1, "3": 2, "31": 30, "32": 31, "33": 32, "34": 33, "35": 34, "vec-1": vec - 1, "vec": vec, "vec+1": vec + 1, "huge": 10000}[size]
 	var msg []byte
 	if ln >= 0 {
 		msg = make([]byte, 1+ln)
@@ -937,4 +944,61 @@ func dkgMessage(e *env, proto, phase string, raw json.RawMessage) string {
 	st.NextTimeout()
 	st.End()
 	return classify(true, err)
+}
+
+// recording processor for the peers of a run
+type recProc struct {
+	me   int
+	emit *[]recMsg
+}
+type recMsg struct {
+	from, to int // to = -1: broadcast
+	data     []byte
+}
+
+func (p recProc) PrivateSend(d int, b []byte) {
+	*p.emit = append(*p.emit, recMsg{p.me, d, append([]byte(nil), b...)})
+}
+func (p recProc) Broadcast(b []byte) {
+	*p.emit = append(*p.emit, recMsg{p.me, -1, append([]byte(nil), b...)})
+}
+func (recProc) Disqualify(int, string)      {}
+func (recProc) FlagMisbehavior(int, string) {}
+
+// successfulRun takes the instance st (participant me of a 3-participant group) through one complete honest run with real peers
+func successfulRun(proto string, me int, st crypto.DKGState) {
+	const n, t = 3, 1
+	var emitted []recMsg
+	peers := map[int]crypto.DKGState{}
+	for i := 0; i < n; i++ {
+		if i == me {
+			continue
+		}
+		switch proto {
+		case "fvss":
+			peers[i], _ = crypto.NewFeldmanVSS(n, t, i, recProc{i, &emitted}, 0)
+		case "qual":
+			peers[i], _ = crypto.NewFeldmanVSSQual(n, t, i, recProc{i, &emitted}, 0)
+		default:
+			peers[i], _ = crypto.NewJointFeldman(n, t, i, recProc{i, &emitted})
+		}
+	}
+	seed := make([]byte, 32)
+	st.Start(seed)
+	for i, p := range peers {
+		seed[0] = byte(i + 1)
+		p.Start(seed)
+	}
+	// the instance under test uses a silent processor: in the single-dealer protocols it is only dealt to when it is not the
+	// dealer; as a dealer its own dealing is lost, which its peers punish, not itself
+	for _, m := range emitted {
+		if m.to == me {
+			st.HandlePrivateMsg(m.from, m.data)
+		} else if m.to == -1 {
+			st.HandleBroadcastMsg(m.from, m.data)
+		}
+	}
+	st.NextTimeout()
+	st.NextTimeout()
+	st.End()
 }
